@@ -38,6 +38,9 @@ pub struct Viol {
     pub class: String,
     pub case: Value,
     pub detail: String,
+    /// worker that recorded it (filled in by the driver)
+    #[serde(default)]
+    pub shard: Option<u64>,
 }
 
 /// What one worker measured.
@@ -138,7 +141,7 @@ impl Ctx {
         let n = self.out.viol_counts.entry(class.to_string()).or_insert(0);
         *n += 1;
         if (*n as usize) <= MAX_VIOL_PER_CLASS {
-            self.out.viols.push(Viol { class: class.to_string(), case: case(), detail });
+            self.out.viols.push(Viol { class: class.to_string(), case: case(), detail, shard: None });
         }
     }
     pub fn sample(&mut self, v: impl FnOnce() -> Value) {
@@ -326,6 +329,21 @@ fn replay(p: &dyn Property, path: &str) -> ! {
             std::process::exit(1);
         }
     });
+    if let Some(sh) = case.get("violating_shard") {
+        let tier = case.get("tier").and_then(Value::as_str).unwrap_or("quick").to_string();
+        let n = case.get("nshards").and_then(Value::as_u64).unwrap_or(16);
+        let class = case.get("class").and_then(Value::as_str).unwrap_or("violation").to_string();
+        let o = Command::new(std::env::current_exe().unwrap()).args(["--worker", &tier, &sh.to_string(), &n.to_string()]).stderr(Stdio::null()).output().unwrap();
+        let b = String::from_utf8_lossy(&o.stdout).to_string();
+        let out = b.lines().rev().find(|l| l.starts_with("RESULT ")).and_then(|l| serde_json::from_str::<Out>(&l[7..]).ok());
+        if out.is_some_and(|o| o.viol_counts.get(&class).copied().unwrap_or(0) > 0) {
+            println!("VIOLATION property={} replay={path}", p.id());
+            println!("detail: worker shard {sh} reports failing cases of class '{class}' again");
+            std::process::exit(1);
+        }
+        println!("replay: shard {sh} no longer reports a failing case of class '{class}'");
+        std::process::exit(0);
+    }
     if let Some(sh) = case.get("crashed_shard").or(case.get("stalled_shard")).or(case.get("panicked_shard")) {
         // re-run the crashed shard in a subprocess
         let tier = case.get("tier").and_then(Value::as_str).unwrap_or("quick").to_string();
@@ -471,6 +489,7 @@ fn drive(p: &dyn Property, tier: Tier) -> ! {
                 class: "subject-panic".into(),
                 case,
                 detail: format!("a panic escaped in case #{case_no} of worker {s}/{nshards}: {}", msg.chars().take(300).collect::<String>()),
+                shard: Some(s),
             });
             continue;
         }
@@ -514,6 +533,7 @@ fn drive(p: &dyn Property, tier: Tier) -> ! {
                 class: "subject-hang".into(),
                 case,
                 detail: format!("the subject did not terminate (no progress for {lim}s) on case #{case_no} of worker {s}/{nshards}"),
+                shard: Some(s),
             });
             continue;
         }
@@ -522,7 +542,12 @@ fn drive(p: &dyn Property, tier: Tier) -> ! {
             continue;
         };
         match serde_json::from_str::<Out>(&line[7..]) {
-            Ok(o) => merge(&mut merged, o),
+            Ok(mut o) => {
+                for v in &mut o.viols {
+                    v.shard = Some(s);
+                }
+                merge(&mut merged, o)
+            }
             Err(e) => failed.push(format!("worker {s}: unparsable result: {e}")),
         }
     }
@@ -541,6 +566,7 @@ fn drive(p: &dyn Property, tier: Tier) -> ! {
                 class: "subject-crash".into(),
                 case: json!({"crashed_shard": s, "nshards": nshards, "tier": tier.name()}),
                 detail: format!("worker process running the subject died from a signal: {st}"),
+                shard: Some(*s),
             });
         }
     }
@@ -576,6 +602,7 @@ fn drive(p: &dyn Property, tier: Tier) -> ! {
         .unwrap_or_default();
     let allowed = p.finding_classes();
     let mut known_lines = vec![];
+    let mut shard_viols: Vec<Viol> = vec![];
     let mut violations: Vec<&Viol> = vec![];
     let mut n_viol = 0u64;
     let mut n_known = 0u64;
@@ -624,6 +651,31 @@ fn drive(p: &dyn Property, tier: Tier) -> ! {
                     break;
                 }
             }
+            if found.is_none() {
+                // The failure needs what earlier cases of its worker left behind in the process
+                // (state of the subject that outlives a case). Re-run that worker: if it fails
+                // again in the same class, the shard is the replayable artefact.
+                if let Some(sh) = cands[0].shard {
+                    let o = Command::new(&exe)
+                        .args(["--worker", tier.name(), &sh.to_string(), &nshards.to_string()])
+                        .stdin(Stdio::null())
+                        .stderr(Stdio::null())
+                        .output();
+                    let again = o.ok().and_then(|o| {
+                        let b = String::from_utf8_lossy(&o.stdout).to_string();
+                        b.lines().rev().find(|l| l.starts_with("RESULT ")).and_then(|l| serde_json::from_str::<Out>(&l[7..]).ok())
+                    });
+                    if again.is_some_and(|o| o.viol_counts.get(&c).copied().unwrap_or(0) > 0) {
+                        shard_viols.push(Viol {
+                            class: c.clone(),
+                            case: json!({"violating_shard": sh, "nshards": nshards, "tier": tier.name(), "class": c, "first_case": cands[0].case}),
+                            detail: format!("(fails only after the cases that precede it in its worker, i.e. through state of the subject that outlives a case) {}", cands[0].detail),
+                            shard: Some(sh),
+                        });
+                        continue;
+                    }
+                }
+            }
             match found {
                 Some(v) => keep.push(v),
                 None => machinery(&format!(
@@ -635,6 +687,8 @@ fn drive(p: &dyn Property, tier: Tier) -> ! {
         }
         violations = keep;
     }
+    let shard_viols = shard_viols;
+    violations.extend(shard_viols.iter());
     for v in &violations {
         // one replay file per class (the first = smallest in enumeration order per worker)
         if !seen_class.insert(v.class.clone()) {
